@@ -18,9 +18,11 @@ KINDS = {
     "text": "<text>a</text>", "defs": "<defs><rect wh=\"1\"/></defs>", "svg": "<svg><rect wh=\"1\"/></svg>", "gradient": "<linearGradient><stop offset=\"0\"/></linearGradient>",
     "g": "<g><rect wh=\"1\"/></g>", "rect": "<rect wh=\"1\"/>", "reuse": "<reuse href=\"#t\"/>", "a": "<a><rect wh=\"1\"/></a>", "marker": "<marker><rect wh=\"1\"/></marker>",
     "clipPath": "<clipPath><rect wh=\"1\"/></clipPath>", "svgns": "<rect wh=\"1\"/><svg xmlns=\"http://www.w3.org/2000/svg\"><rect width=\"1\" height=\"1\"/></svg>",
-    "use": "<use href=\"#t\"/>", "comment": "<!-- c --><rect wh=\"1\"/>", "style": "<style>rect { fill: red; }</style>", "path": "<path d=\"M 0 0 L 1 1\"/>", "polyline": "<polyline points=\"0 0 1 1\"/>", "recttext": "<rect wh=\"1\">hi</rect>", "title": "<title>t</title>",
+    "use": "<use href=\"#t\"/>", "iffalse": "<if test=\"0\"><rect wh=\"1\"/></if>", "iftrue": "<if test=\"1\"><rect wh=\"1\"/></if>", "loop0": "<loop count=\"0\"><rect wh=\"1\"/></loop>",
+    "loop2": "<loop count=\"2\"><rect wh=\"1\"/></loop>", "for1": "<for var=\"q\" data=\"1, 2\"><rect wh=\"$q\"/></for>", "var": "<var q=\"1\"/><rect wh=\"1\"/>", "defaults": "<defaults><rect rx=\"1\"/></defaults><rect wh=\"1\"/>",
+    "gempty": "<g></g><g/>", "point": "<point xy=\"1\"/><box wh=\"2\"/>", "shapetext": "<rect wh=\"5\" text=\"a\"/>", "iffwd": "<if test=\"gt(#zz~w, 0)\"><rect wh=\"1\"/></if>", "comment": "<!-- c --><rect wh=\"1\"/>", "style": "<style>rect { fill: red; }</style>", "path": "<path d=\"M 0 0 L 1 1\"/>", "polyline": "<polyline points=\"0 0 1 1\"/>", "recttext": "<rect wh=\"1\">hi</rect>", "title": "<title>t</title>",
 }
-DEPTH = {"text": 3, "defs": 4, "svg": 4, "gradient": 4, "g": 4, "rect": 3, "reuse": 4, "a": 4, "marker": 4, "clipPath": 4, "recttext": 3, "title": 3, "svgns": 4, "use": 3, "comment": 3, "style": 3, "path": 3, "polyline": 3}
+DEPTH = {"text": 3, "defs": 4, "svg": 4, "gradient": 4, "g": 4, "rect": 3, "reuse": 4, "a": 4, "marker": 4, "clipPath": 4, "recttext": 3, "title": 3, "svgns": 4, "use": 3, "iffalse": 4, "iftrue": 4, "loop0": 4, "loop2": 4, "for1": 4, "var": 3, "defaults": 4, "gempty": 3, "point": 3, "shapetext": 3, "iffwd": 4, "comment": 3, "style": 3, "path": 3, "polyline": 3}
 
 
 def templates(tier, seed):
@@ -39,6 +41,8 @@ def templates(tier, seed):
     for k in (1, 2, 3, 5):
         for delta in (-1, 0, 1):
             tds.append(dict(fam="depth-nesting", k=k, delta=delta))
+            for leaf in ("var", "config", "defaults", "circle", "point", "textattr", "loop1", "if1", "use", "reuse"):
+                tds.append(dict(fam="depth-nesting", k=k, delta=delta, leaf=leaf))
     for nfwd in (1, 2, 3, 5, 8):
         for where in ("top", "in-g", "in-g-g"):
             for slack in (0, 1):
@@ -47,6 +51,8 @@ def templates(tier, seed):
         for delta in (-1, 0, 1):
             for ch in ("x", "é", "→", "𝄞"):
                 tds.append(dict(fam="var-limit", lim=lim, delta=delta, ch=ch))
+    for form in ("reassign-later", "reassign-later-in-g", "limit-raised-later", "self-growth", "via-g-attr"):
+        tds.append(dict(fam="var-limit-final", form=form))
     for lim in (5, 24, 30):
         for ch in ("é", "→", "ab→"):
             tds.append(dict(fam="var-limit-growth", lim=lim, ch=ch))
@@ -114,8 +120,9 @@ def build(td, wrong=False):
         d = DEPTH[kind]
         D = d + td["slack"] - (3 if wrong else 0)
         spec = '<specs><rect id="t" wh="1"/></specs>' if kind in ("reuse", "use") else ""
+        zz = '<rect id="zz" wh="3"/>' if kind == "iffwd" else ""
         first = ""      # (a namespaced <svg> as the first element of an event list makes the whole list pass through: the kind starts with a rect)
-        doc = f'<svg><config depth-limit="{D}"/>{spec}{first}<var i="0"/><loop while="lt($i, [[0]])">{KINDS[kind]}<var i="{{{{$i + 1}}}}"/></loop></svg>'
+        doc = f'<svg><config depth-limit="{D}"/>{spec}{first}<var i="0"/><loop while="lt($i, [[0]])">{KINDS[kind]}<var i="{{{{$i + 1}}}}"/></loop>{zz}</svg>'
 
         def check(r):
             if r.status == "ok":
@@ -129,13 +136,23 @@ def build(td, wrong=False):
         k, delta = td["k"], td["delta"]
         depth = k + 1              # k nested groups + the innermost rect (test-suite semantics, no root svg)
         lim = depth + delta
-        doc = f'<config depth-limit="{lim}"/>' + "<g>" * k + '<rect xy="[[0]] 0" wh="1"/>' + "</g>" * k
+        leaf = td.get("leaf", "rect")
+        # every element counts one level, whatever it does: context-only elements (<var>, <config>, <defaults>) included;
+        # <loop>/<if> count one level for themselves and their body elements one more
+        lm, extra = {"rect": ('<rect xy="[[0]] 0" wh="1"/>', 0), "var": ('<var q="[[0]]"/>', 0), "config": ('<config border="3"/>', 0), "defaults": ('<defaults><rect rx="1"/></defaults>', 0),
+                     "circle": ('<circle cxy="[[0]] 0" r="1"/>', 0), "point": ('<point xy="[[0]] 0"/>', 0), "textattr": ('<rect xy="[[0]] 0" wh="4" text="a"/>', 0),
+                     "loop1": ('<loop count="1"><rect xy="[[0]] 0" wh="1"/></loop>', 1), "if1": ('<if test="1"><rect xy="[[0]] 0" wh="1"/></if>', 1),
+                     "use": ('<use href="#tt" x="[[0]]"/>', 0), "reuse": ('<reuse href="#tt" x="[[0]]"/>', 1)}[leaf]
+        depth += extra
+        lim = depth + delta
+        pre = '<specs><rect id="tt" wh="1"/></specs>' if leaf in ("use", "reuse") else ""
+        doc = f'<config depth-limit="{lim}"/>{pre}' + "<g>" * k + lm + "</g>" * k
 
         def check(r):
             want_ok = depth <= lim
             good = (r.status == "ok") if want_ok else (r.status == "err")
             return [Obl(f"nesting-{depth}-limit-{lim}", PASS if good else FAIL, ground=True, note=r.status + " " + r.docs[0]["msg"][:100])]
-        return Template(f"depth-nesting/k{k}/d{delta}", doc, [(1, -8, 8, 0)], check, family="depth-nesting", role="C17/depth-nesting", cap=2)
+        return Template(f"depth-nesting/k{k}/d{delta}/{leaf}", doc, [(1, -8, 8, 0)], check, family="depth-nesting", role="C17/depth-nesting", cap=2)
     if fam == "depth-retries":
         # elements that have to be retried (forward references) must not use up nesting depth
         nfwd, where = td["nfwd"], td["where"]
@@ -166,6 +183,17 @@ def build(td, wrong=False):
                 good = r.status in ("ok", "err") and (r.status == "err" or len(ch.encode()) * n <= lim or n <= lim)
             return [Obl(f"var-length-{n}-limit-{lim}", PASS if good else FAIL, ground=True, note=r.status + " " + r.docs[0]["msg"][:100])]
         return Template(f"var-limit/{lim}/{delta}/{ch}", doc, [(1, -8, 8, 0)], check, family="var-limit", role="C17/var-limit", cap=2)
+    if fam == "var-limit-final":
+        # exceeding the limit is final: nothing written later in the document can make the same <var> acceptable on a retry
+        doc = {"reassign-later": '<svg><config var-limit="10"/><var a="0123456789"/><var b="$a$a"/><var a="x"/><rect xy="[[0]] 0" wh="1"/></svg>',
+               "reassign-later-in-g": '<svg><config var-limit="10"/><g><var a="0123456789"/><var b="$a$a"/><var a="x"/></g><rect xy="[[0]] 0" wh="1"/></svg>',
+               "limit-raised-later": '<svg><config var-limit="5"/><var a="123456"/><config var-limit="100"/><rect xy="[[0]] 0" wh="1"/></svg>',
+               "self-growth": '<svg><config var-limit="6"/><var a="abc"/><var a="$a$a"/><var a="$a$a"/><var a="q"/><rect xy="[[0]] 0" wh="1"/></svg>',
+               "via-g-attr": '<svg><config var-limit="4"/><var a="12345"/><g a="1"><rect xy="[[0]] 0" wh="1"/></g></svg>'}[td["form"]]
+
+        def check(r):
+            return [Obl("over-limit-variable-is-final", PASS if r.status == "err" else FAIL, ground=True, note=r.status + " " + r.docs[0]["msg"][:100])]
+        return Template(f"var-limit-final/{td['form']}", doc, [(1, -8, 8, 0)], check, family="var-limit", role="C17/var-limit", cap=2)
     if fam == "var-limit-growth":
         lim, ch = td["lim"], td["ch"]
         doc = f'<svg><config var-limit="{lim}"/><var s="{ch}"/><loop count="12"><var s="$s$s"/></loop><rect xy="[[0]] 0" wh="1"/></svg>'
